@@ -42,19 +42,6 @@ class IoMachine(Machine):
         self.cuts = set(cuts)
         self.max_len = 1 << 40
 
-    def step(self, cfg):
-        fr = cfg.stack[-1]
-        if len(cfg.stack) == 1 and fr.bb in self.cuts:
-            n = cfg.st.extra.get('cutvisits', 0)
-            if n >= 1:
-                return Outcome(cfg.st, 'cut')
-            cfg.st.extra['cutvisits'] = n + 1
-        blk = fr.body['blocks'][fr.bb]
-        if blk['t']['k'] == 'yield':
-            for s in blk['s']:
-                self.stmt(cfg, fr, s)
-            return Outcome(cfg.st, 'yield')
-        return Machine.step(self, cfg)
 
 
 def ev(st, *e):
@@ -472,3 +459,15 @@ def run_io(prog, inst, cuts=(), setup=None):
         args = setup(m, st, args) or args
     outs = m.run(inst, args, st)
     return m, outs
+
+
+def natural_loop_heads(body):
+    """targets of back edges (u -> v with v dominating u): heads of all (nested) natural loops"""
+    cfg = mir.CFG(body)
+    dom = cfg.dominators()
+    heads = set()
+    for u in cfg.reach:
+        for v in cfg.succ[u]:
+            if v in dom.get(u, ()):
+                heads.add(v)
+    return sorted(heads)
